@@ -697,6 +697,22 @@ def c06_r6(ctx: Ctx, rule):
         res.fail(rule.id, "provn-framing::id-separator", ctx.loc(rq, rf.node), "no ';' separator constant after the relation identifier", "identified relations: the identifier is parsed as the first argument")
     if not has_marker:
         res.fail(rule.id, "provn-framing::absent-marker", ctx.loc(rq, rf.node), "no '-' marker constant for an absent optional argument", "arguments after an absent one shift one position to the left")
+    # every registered namespace gets its `prefix` line: the source is the manager's own registry, unfiltered
+    from ..mutation import all_assignments as _all_assignments
+
+    for n in walk_function(bf.node):
+        if isinstance(n, (ast.ListComp, ast.GeneratorExp)) and any(isinstance(c, ast.Constant) and isinstance(c.value, str) and c.value.startswith(fr["prefix"] + " ") for c in ast.walk(n.elt)):
+            g0 = n.generators[0]
+            filtered = bool(g0.ifs)
+            src_ok = True
+            if isinstance(g0.iter, ast.Name):
+                defs = _all_assignments(bf.node, g0.iter.id)
+                src_ok = len(defs) == 1 and isinstance(defs[0], ast.Call) and call_name(defs[0]) in ("get_registered_namespaces",) and "self" in norm(defs[0].func.value)
+            res.ob("`prefix` lines are printed for every registered namespace of this container (unfiltered, single source): %s" % (not filtered and src_ok))
+            if filtered or not src_ok:
+                res.fail(rule.id, "provn-scope::prefix-lines-filtered", ctx.loc(bq, n),
+                         "the `prefix` declarations of a bundle are printed from a filtered / re-assigned list of namespaces",
+                         "document ex->A, nested bundle ex->B: the bundle's own `prefix ex <B>` line is dropped, every ex: name in it resolves to A")
     # the bundle printer declares its own default and registered namespaces
     reads = scope_reads(ctx, bq)
     kinds = {w for w, root, n in reads if root == "self"}
